@@ -63,7 +63,15 @@ def dump_slave(blocks):
     return [dump_block(b) for b in blocks]
 
 
-def gen_layout(rng, broken_p=0.0, small=True):
+def gen_layout(rng, broken_p=0.0, small=True, big_p=0.07):
+    if rng.random() < big_p:
+        # a unit with room for the LARGEST legal requests and responses (2000 bits, 125 registers, 123 written registers):
+        # frames of 250+ bytes (500+ characters on ASCII) on every path
+        nblk = rng.choice([1, 2])
+        blocks = [{'kind': 'seq', 'address': rng.choice([0, 1]), 'values': [0] * 2100,
+                   'pybool': rng.random() < 0.3} for _ in range(nblk)]
+        ix = [rng.randrange(nblk) for _ in range(4)]
+        return {'blocks': blocks, 'd': ix[0], 'c': ix[1], 'i': ix[2], 'h': ix[3], 'zero': rng.random() < 0.5}
     n = rng.choice([1, 2, 4, 4, 4])
     blocks = []
     for _ in range(n):
@@ -71,6 +79,8 @@ def gen_layout(rng, broken_p=0.0, small=True):
         if b['kind'] == 'seq':
             ln = rng.choice([1, 2, 10, 100]) if not small else rng.choice([1, 2, 4, 10, 30])
             b['values'] = [rng.randrange(0, 2) for _ in range(ln)]
+            # some applications initialise their blocks with Python bools ([False] * n); the cells are still registers
+            b['pybool'] = rng.random() < 0.25
             b['address'] = rng.choice([0, 1, 5, 65530])
             if b['address'] + ln > 65537:
                 b['address'] = 65537 - ln
